@@ -147,8 +147,60 @@ def handleSeq (req : Json) : Except String Json := do
       pure (obj [("reads", ofList resToJson outs)])
   | _ => throw s!"unknown seqop {op}"
 
+/-- phase 6: a history of `open` / `next` / `close` over generators of ONE filter object (or the pipeline of one
+`Environments.scale|impute` call), run on the generator machine `GenSt.run` -/
+def genOpOfJson (j : Json) : Except String GenOp := do
+  match (← arr j) with
+  | [t, n] =>
+    let n ← nat n
+    match (← str t) with
+    | "open" => pure (.openG n)
+    | "next" => pure (.next n)
+    | "close" => pure (.close n)
+    | o => throw s!"unknown history op {o}"
+  | _ => throw "history op expected"
+
+def rowToJson : Row → Json
+  | .dense r => obj [("kind", Json.str "dense"), ("row", ofList valToJson r)]
+  | .sparse r => obj [("kind", Json.str "sparse"), ("row", ofList (fun (kv : String × Val) => Json.arr #[Json.str kv.1, valToJson kv.2]) r)]
+  | .scalar v => obj [("kind", Json.str "scalar"), ("row", valToJson v)]
+
+def genOutToJson : GenOut → Json
+  | .opened => obj [("t", Json.str "opened")]
+  | .nosrc => obj [("t", Json.str "nosrc")]
+  | .nogen => obj [("t", Json.str "nogen")]
+  | .item r => obj [("t", Json.str "item"), ("item", rowToJson r)]
+  | .stop => obj [("t", Json.str "stop")]
+  | .raised _ => obj [("t", Json.str "raised"), ("err", Json.str "CobaException")]
+  | .closed => obj [("t", Json.str "closed")]
+
+def handleGens (req : Json) : Except String Json := do
+  let op ← str (← field req "seqop")
+  let u ← opt nat (fieldD req "using" Json.null)
+  let tables ← (← arr (← field req "seq")).mapM tableOfJson
+  let hist ← (← arr (← field req "history")).mapM genOpOfJson
+  let ops : List (List Nat × GenOp) := hist.mapIdx (fun n o => ([n, n + 1, n + 2, n + 3], o))
+  let t0 : List Nat := [0, 0, 0, 0]
+  match op with
+  | "scale" =>
+    let cfg : Cfg := { shift := (← shiftOfJson (← field req "shift")), scale := (← sclOfJson (← field req "scale")), usingN := u }
+    let outs := (GenSt.run (scaleCtxs sdApprox) tables ⟨[⟨cfg, t0⟩], []⟩ ops).2
+    -- (C) plumbing guard: the cursor machine of `generator_histories`
+    let spec := (curRun (pipeRows (scaleCtxs sdApprox) [cfg]) tables [] hist).2
+    pure (obj [("outs", ofList genOutToJson outs), ("spec", ofList genOutToJson spec),
+               ("fits", ofList (fitsOf cfg) tables)])
+  | "impute" =>
+    let stats ← (← arr (← field req "stats")).mapM statOfJson
+    let ind ← bool (← field req "ind")
+    let cfgs : List ImpCfg := stats.map (fun st => (st, ind, u))
+    let outs := (GenSt.run imputeF tables ⟨cfgs.map (fun c => ⟨c, t0⟩), []⟩ ops).2
+    let spec := (curRun (pipeRows imputeF cfgs) tables [] hist).2
+    pure (obj [("outs", ofList genOutToJson outs), ("spec", ofList genOutToJson spec)])
+  | _ => throw s!"unknown seqop {op}"
+
 def handle (req : Json) : Except String Json := do
   let op ← str (← field req "op")
+  if op == "gens" then return (← handleGens req)
   if op == "seq" then return (← handleSeq req)
   if op == "variance" then
     let xs ← ratList (← field req "xs")
